@@ -127,6 +127,25 @@ def w_plans(idx):
         root.add_namespace(None, "https://eml.ecoinformatics.org/eml-2.2.0")
         root.add_namespace("xsi", "http://www.w3.org/2001/XMLSchema-instance")
         evs.append(record_expand(root, {"items": items, "fault": fault, "namespaces": "default + prefixed, as after from_xml"}))
+        # the same plan inside a complete eml document that holds one more reference below additionalMetadata/metadata
+        # (nothing in the statement exempts metadata content: every references node is expanded)
+        defs = [k for k, it in enumerate(items) if it["kind"] in ("def", "def0")]
+        if defs and fault[0] == "none":
+            Node.store.clear()
+            ds = build(items, fault, random.Random(i))
+            e = Node("eml")
+            e.add_attribute("packageId", "p.1.1")
+            e.add_attribute("system", "s")
+            e.add_child(ds)
+            am = Node("additionalMetadata")
+            md = Node("metadata")
+            wrap = Node("zzWrapper")
+            el = items[defs[0]]["el"]
+            wrap.add_child(party(el, ref=f"id{defs[0] + 1}", rnd=random.Random(i)))
+            md.add_child(wrap)
+            am.add_child(md)
+            e.add_child(am)
+            evs.append(record_expand(e, {"items": items, "fault": fault, "extra": "one more reference below additionalMetadata/metadata"}))
     return evs
 
 
